@@ -108,7 +108,7 @@ def resObs (r : TxnRes) : TxnObs :=
 
 def modelTxnObs (c : Cfg) (t : Oracle × Dir) : TxnObs :=
   match load c with
-  | .accept fls => resObs (runTxn fls t.1 t.2)
+  | .accept fls => resObs (runTxn c fls t.1 t.2)
   | _ => .notLoaded
 
 def modelObs (c : Cfg) (txns : List (Oracle × Dir)) : Obs :=
